@@ -5,7 +5,7 @@ specification (FloorMC).  Times are ticks of 0.25 time units; -1 is "infinite / 
 import itertools
 import random
 
-DEV_DEFAULTS = dict(ups=[], cyc=0, cap=-1, delay=0, budget=-1, pval=0, bsrc=-1, bmix=False, bsize=0, req={}, pred='all',
+DEV_DEFAULTS = dict(ups=[], cyc=0, cap=-1, delay=0, budget=-1, pval=0, bsrc=-1, bnest=0, bmix=False, bsize=0, req={}, pred='all',
                     vadd=0, qset=0, qinc=False, cycmod=0, offmod=0, offmod2=0, foff=0, late=False,
                     wodur=0, wocap=0, wocost=0, wear=0, thr=0, sint=-1, pint=0, scap=-1, gin=0, gout=0, vups=[], members=[], inputs=[], outputs=[])
 
@@ -865,6 +865,28 @@ def gen_groups(rng, count=40):
     return out
 
 
+def gen_nested():
+    """Batches that contain batches (only a user-written part generator makes them): the value of the outer batch
+    is the sum over the inner batches, which are the sums over their parts; buffers and sinks count the direct
+    members.  Deterministic shapes, kept away from batchers (a batcher would re-pack the inner batches)."""
+    out = []
+    shapes = [
+        [src(2, 3, pval=1, bsrc=2), dev('sink', [1], cyc=0)],
+        [src(2, 3, pval=2, bsrc=2), dev('processor', [1], cyc=1, vadd=1), dev('sink', [2], cyc=1)],
+        [src(1, 4, pval=3, bsrc=3), dev('buffer', [1], cap=-1), dev('handler', [2], cyc=2), dev('sink', [3], cyc=0)],
+        [src(3, 2, pval=-2, bsrc=1), dev('handler', [1], cyc=1), dev('sink', [2], cyc=0)],
+        [src(2, 4, pval=1, bsrc=2), dev('gate', [1], pred='all'), dev('processor', [2], cyc=3), dev('sink', [3], cyc=0)],
+    ]
+    for i, devs in enumerate(shapes):
+        devs[0]['bnest'] = [2, 1, 2, 3, 2][i]
+        if i == 3:
+            devs[0]['bmix'] = True
+        cfg = norm(dict(devs=devs, horizon=16))
+        cfg['family'] = 'nested-batch'
+        out.append(cfg)
+    return out
+
+
 def quick_family(seed, scale=1.0):
     """The configurations of the quick tier (a few hundred)."""
     rng = random.Random(seed * 7919 + 13)
@@ -893,6 +915,7 @@ def quick_family(seed, scale=1.0):
             c2['splits'] = sorted(set(rng.sample(range(1, c['horizon']), rng.choice([1, 2]))))
             c2['family'] = c.get('family', '') + '/split'
             out.append(c2)
+    out += gen_nested()        # appended last: the random streams and numbering of the other families stay as they were
     for i, c in enumerate(out):
         c['cid'] = i + 1
         c['trace'] = (i % 7 == 3)      # every seventh configuration also exports the event trace file
